@@ -183,11 +183,19 @@ impl Clone for V {
     }
 }
 
+/// While set, `Drop` of the next value that is dropped panics - once: the flag clears itself,
+/// so that a second drop during the unwinding cannot turn the panic into an abort (a value
+/// type whose destructor fails; the caller catches the panic and goes on using the cache).
+pub static DROP_PANICS_NOW: std::sync::atomic::AtomicBool = std::sync::atomic::AtomicBool::new(false);
+
 impl Drop for V {
     fn drop(&mut self) {
         let t = tracker();
         t.live_v.fetch_sub(1, SeqCst);
         t.release(self.inst, "value");
+        if DROP_PANICS_NOW.swap(false, SeqCst) && !std::thread::panicking() {
+            panic!("{CB_MARK}: drop");
+        }
     }
 }
 
